@@ -305,10 +305,21 @@ def closure(chk, height: int, max_nodes: int, npool: int, max_apps: int, agg, se
         allt = list(known)
         newset = set(new)
         apps = []
-        for t1 in allt:
-            for t2 in allt:
-                if t1 in newset or t2 in newset:
-                    apps.append(('mp', t1, t2))
+        mp_apps = []
+        if lvl <= 1:
+            for t1 in allt:
+                for t2 in allt:
+                    if t1 in newset or t2 in newset:
+                        mp_apps.append(('mp', t1, t2))
+        else:
+            # deeper levels: only pairs whose antecedent is textually the second theorem (the condition the rule itself
+            # checks; a more liberal modus ponens is still explored exhaustively by the BFS over raw instructions and at level 1)
+            by_text = set(allt)
+            for t1 in allt:
+                if t1.startswith('(imp '):
+                    ant = rm.show(rm.parse(t1)[1])
+                    if ant in by_text and (t1 in newset or ant in newset):
+                        mp_apps.append(('mp', t1, ant))
         for t in new:
             for x in (0, 1):
                 apps.append(('gen', t, x))
@@ -326,6 +337,7 @@ def closure(chk, height: int, max_nodes: int, npool: int, max_apps: int, agg, se
                             for p1 in pool[:6]:
                                 for p2 in pool[:6]:
                                     apps.append(('inst', t, (mvs[i], mvs[j]), (p1, p2)))
+        apps = apps + mp_apps
         if len(apps) > max_apps:
             capped = True
             apps = apps[:max_apps]
